@@ -506,6 +506,34 @@ Theorem C18_check_meaning_graphops : forall rest,
 Proof. exact case_meaning_graphops. Qed.
 Print Assumptions C18_check_meaning_graphops.
 
+(* (group hM) op 10 with the integer layout spelled out.  sprint_case_ok states the case through the record
+   parser parse_sprint; this theorem turns the complete parse into an equation for the line.  Attribute kinds
+   1 (int) and 4 (uint) decode to the same model value, so the layout is over RAW attributes (rattr: name,
+   kind 0..4, payload as written: <bytes> for kind 0 string / 2 literal, one integer for kind 1 int / 4 uint,
+   nothing for kind 3 unsupported) with attr_of decoding them into the model's attributes; enc_list enc xs =
+   count followed by the encodings.  NodeAttrs: one row per node; EdgeAttrs: per node, per edge. *)
+From MM Require Import Proofs.CheckC18DotLayout.
+Theorem C18_check_sprint_layout : forall rest, sprint_case_ok rest ->
+  exists g name haslabel labels hasn hase status obs (rn : list (list rattr)) (re : list (list (list rattr))),
+    rest = enc_graph g ++ enc_Zs name ++ haslabel :: enc_Zss labels ++ hasn :: enc_list enc_rattrs rn ++
+           hase :: enc_list (enc_list enc_rattrs) re ++ status :: enc_Zs obs ++ 1 :: enc_graph g /\
+    Forall (Forall rattr_ok) rn /\ Forall (Forall (Forall rattr_ok)) re /\
+    g_wf g /\
+    let d := sprint_opts name haslabel labels hasn (map (map attr_of) rn) hase (map (map (map attr_of)) re) in
+    let stmts := dot_stmts d (g_out g) (g_n g) in
+    somes (map stmt_node stmts) = nodes_upto (g_n g) /\
+    somes (map stmt_edge stmts) = flat_map (fun i => map (fun o => (i, o)) (g_out g i)) (nodes_upto (g_n g)) /\
+    ((status = 0 /\ (forall s a, In s stmts -> In a (stmt_attrs s) -> snd a <> AOther) /\
+      exists body, render_all stmts = Some body /\
+        obs = ZsN ([100; 105; 103; 114; 97; 112; 104; 32] ++ dot_string (d_name d) ++ [32; 123; 10] ++ body ++ [125; 10])%N)
+     \/ (status = 2 /\ obs = [] /\ exists s a, In s stmts /\ In a (stmt_attrs s) /\ snd a = AOther)).
+Proof. exact sprint_case_layout. Qed.
+Print Assumptions C18_check_sprint_layout.
+Example C18_ex_rattr :
+  enc_rattr (mkRA [108] 4 [] 7) = [1; 108; 4; 7] /\ attr_of (mkRA [108] 4 [] 7) = attr_of (mkRA [108] 1 [] 7) /\
+  enc_rattr (mkRA [108] 0 [65; 66] 0) = [1; 108; 0; 2; 65; 66] /\ p_attr [1; 108; 5; 7] = None.
+Proof. vm_compute. auto. Qed.
+
 (* Non-vacuity: real case lines (harness output on /repo, one per operation; op 2 written by hand: the graph
    0->1,2  1->2  2->0 from root 0 and from the missing root 3) are accepted with code 0; lines with one
    observed number changed are rejected. *)
